@@ -312,6 +312,264 @@ pub fn run(spec: &RunSpec, ty: &dyn TyObj, want_log: bool) -> RunResult {
                     }
                 }
             }
+            OpKind::SpanProbe { low, high, inclusive, via, targets } => {
+                use std::cmp::Ordering as O;
+                let high_incl = if *inclusive { high.clone() } else { refint::add_small(high, -1) };
+                bump(&mut counters, "op_span_probe");
+                nontrivial = true;
+                let sampler = if *via == 2 {
+                    match guarded(|| ty.uniform(low, high, *inclusive, crate::types::Ctor::Val)) {
+                        Ok(s) => Some(s),
+                        Err(pc) => {
+                            viol.push(Violation { class: "panic", op: oi, call: 0, detail: format!("constructing the sampler for [{} , {}] panicked: {:?}", hex(low), hex(high), pc) });
+                            continue;
+                        }
+                    }
+                } else {
+                    None
+                };
+                // r as bytes (full range: 2^W needs one more byte)
+                let rbytes = match refint::range_size(low, &high_incl) {
+                    Some(r) => r,
+                    None => {
+                        let mut r = vec![0u8; width + 1];
+                        r[width] = 1;
+                        r
+                    }
+                };
+                let maxw = vec![0xFFu8; width];
+                let zero = vec![0u8; width];
+                let mut aborted = false;
+                let mut probes = 0u64;
+                // one call with `w` as its only planned word: Some(value) if accepted at once, None if rejected
+                let mut probe = |w: &[u8], viol: &mut Vec<Violation>, aborted: &mut bool| -> Option<Vec<u8>> {
+                    if *aborted {
+                        return None;
+                    }
+                    probes += 1;
+                    let plan = [Plan::Fixed(w.to_vec())];
+                    let st = rng.begin_call(&plan);
+                    let r = match *via {
+                        0 => guarded(|| ty.gen_range(low, high, *inclusive, &mut rng, op.dynamic)),
+                        1 => guarded(|| ty.sample_single(low, high, *inclusive, false, &mut rng, op.dynamic)),
+                        _ => {
+                            let s = sampler.as_ref().unwrap();
+                            guarded(|| s.sample(&mut rng, op.dynamic))
+                        }
+                    };
+                    let evs = &rng.events[st..];
+                    let _ = check_panic(&r, evs, oi, probes as usize, viol, &mut counters);
+                    for e in evs {
+                        fp.u(e.req as u64);
+                        if let Resp::Ok(b) = &e.resp {
+                            fp.b(b);
+                        }
+                    }
+                    *counters.entry("draw_requests").or_insert(0) += evs.len() as u64;
+                    let Ok(v) = r else {
+                        *aborted = true;
+                        return None;
+                    };
+                    fp.b(&v);
+                    if evs.first().map(|e| e.req as usize != width).unwrap_or(true) {
+                        // the sampler does not ask for one type-width word per attempt: reading does not apply
+                        *aborted = true;
+                        return None;
+                    }
+                    if v.len() != width || !refint::in_range(signed, low, &high_incl, &v) {
+                        viol.push(Violation { class: "membership", op: oi, call: probes as usize, detail: format!("span probe: first word {} returned {} outside [{}, {}]", hex(w), hex(&v), hex(low), hex(&high_incl)) });
+                        *aborted = true;
+                        return None;
+                    }
+                    if evs.len() == 1 {
+                        Some(v)
+                    } else {
+                        None
+                    }
+                };
+                let mut sp = crate::prng::Prng::new(spec.fresh_seed ^ 0x5BA9_0000 ^ oi as u64);
+                // measured blocks: (offset k, value, first word, last word, size)
+                let mut blocks: Vec<(Vec<u8>, Vec<u8>, Vec<u8>, Vec<u8>, Vec<u8>)> = Vec::new();
+                let mut inapplicable = 0u32;
+                let mut spans_measured = 0u64;
+                'targets: for k in targets.iter() {
+                    if aborted {
+                        break;
+                    }
+                    let mut kk = vec![0u8; width + 1];
+                    kk[..width].copy_from_slice(k);
+                    if refint::ucmp(&{ let mut t = kk.clone(); t.resize(rbytes.len().max(width + 1), 0); t }, &{ let mut t = rbytes.clone(); t.resize(rbytes.len().max(width + 1), 0); t }) != O::Less {
+                        continue; // not an offset inside the range
+                    }
+                    let x = refint::add(low, k);
+                    // multiply-shift hint for where the block of x lives: [A, Bm]
+                    let Some(a_hint) = refint::fibre_start(&kk, &rbytes, width) else { continue };
+                    let k1 = refint::add_small(&kk, 1);
+                    let bm = match refint::fibre_start(&k1, &rbytes, width) {
+                        Some(b) => refint::add_small(&b, -1),
+                        None => maxw.clone(),
+                    };
+                    if refint::ucmp(&a_hint, &bm) == O::Greater {
+                        inapplicable += 1;
+                        continue;
+                    }
+                    let span = refint::add_small(&refint::sub(&bm, &a_hint), 1); // >= 1 (0 means 2^W)
+                    // a word that maps to x
+                    let mid = refint::midpoint(&a_hint, &bm);
+                    let mut seed = None;
+                    for c in [a_hint.clone(), mid.clone(), refint::midpoint(&a_hint, &mid), refint::add_small(&a_hint, 1), bm.clone()] {
+                        if refint::ucmp(&c, &a_hint) == O::Less || refint::ucmp(&c, &bm) == O::Greater {
+                            continue;
+                        }
+                        if probe(&c, &mut viol, &mut aborted).as_ref() == Some(&x) {
+                            seed = Some(c);
+                            break;
+                        }
+                    }
+                    let Some(s0) = seed else {
+                        inapplicable += 1;
+                        continue;
+                    };
+                    // lower end: bisect between a word that is not x (one span below the hint) and the seed
+                    let l0 = if !refint::is_zero(&span) && refint::ucmp(&a_hint, &span) != O::Less { refint::sub(&a_hint, &span) } else { zero.clone() };
+                    let a_x = if probe(&l0, &mut viol, &mut aborted).as_ref() == Some(&x) {
+                        if refint::is_zero(&l0) {
+                            zero.clone()
+                        } else {
+                            inapplicable += 1;
+                            continue 'targets;
+                        }
+                    } else {
+                        let (mut lo, mut hi) = (l0, s0.clone());
+                        while refint::ucmp(&refint::add_small(&lo, 1), &hi) == O::Less && !aborted {
+                            let m = refint::midpoint(&lo, &hi);
+                            if probe(&m, &mut viol, &mut aborted).as_ref() == Some(&x) {
+                                hi = m;
+                            } else {
+                                lo = m;
+                            }
+                        }
+                        hi
+                    };
+                    // upper end
+                    let room = refint::sub(&maxw, &bm);
+                    let u0 = if !refint::is_zero(&span) && refint::ucmp(&room, &span) != O::Less { refint::add(&bm, &span) } else { maxw.clone() };
+                    let e_x = if probe(&u0, &mut viol, &mut aborted).as_ref() == Some(&x) {
+                        if u0 == maxw {
+                            maxw.clone()
+                        } else {
+                            inapplicable += 1;
+                            continue 'targets;
+                        }
+                    } else {
+                        let (mut lo, mut hi) = (s0.clone(), u0);
+                        while refint::ucmp(&refint::add_small(&lo, 1), &hi) == O::Less && !aborted {
+                            let m = refint::midpoint(&lo, &hi);
+                            if probe(&m, &mut viol, &mut aborted).as_ref() == Some(&x) {
+                                lo = m;
+                            } else {
+                                hi = m;
+                            }
+                        }
+                        lo
+                    };
+                    if aborted {
+                        break;
+                    }
+                    // local verification of both ends, and the neighbours must be the adjacent values
+                    let mut ok = true;
+                    if !refint::is_zero(&a_x) {
+                        let mut wv = refint::add_small(&a_x, -1);
+                        for _ in 0..6 {
+                            match probe(&wv, &mut viol, &mut aborted) {
+                                Some(v) => {
+                                    if v != refint::add_small(&x, -1) {
+                                        ok = false;
+                                    }
+                                    break;
+                                }
+                                None => {
+                                    if refint::is_zero(&wv) {
+                                        break;
+                                    }
+                                    wv = refint::add_small(&wv, -1);
+                                }
+                            }
+                        }
+                    }
+                    if e_x != maxw {
+                        let mut wv = refint::add_small(&e_x, 1);
+                        for _ in 0..6 {
+                            match probe(&wv, &mut viol, &mut aborted) {
+                                Some(v) => {
+                                    if v != refint::add_small(&x, 1) {
+                                        ok = false;
+                                    }
+                                    break;
+                                }
+                                None => {
+                                    if wv == maxw {
+                                        break;
+                                    }
+                                    wv = refint::add_small(&wv, 1);
+                                }
+                            }
+                        }
+                    }
+                    // interior: every sampled word of [a_x, e_x] must be accepted at once and map to x
+                    let size_m1 = refint::sub(&e_x, &a_x);
+                    for j in 0..14 {
+                        let off = match j {
+                            0 => zero.clone(),
+                            1 => size_m1.clone(),
+                            _ => crate::gen::below_incl(&mut sp, &size_m1),
+                        };
+                        let wv = refint::add(&a_x, &off);
+                        if probe(&wv, &mut viol, &mut aborted).as_ref() != Some(&x) {
+                            ok = false;
+                        }
+                    }
+                    if aborted {
+                        break;
+                    }
+                    if !ok {
+                        inapplicable += 1;
+                        continue;
+                    }
+                    spans_measured += 1;
+                    // size as width+1 bytes (a block can be the whole word space)
+                    let mut size = vec![0u8; width + 1];
+                    size[..width].copy_from_slice(&size_m1);
+                    let size = refint::add_small(&size, 1);
+                    blocks.push((k.clone(), x, a_x, e_x, size));
+                }
+                calls_total += probes;
+                *counters.entry("probe_spans_measured").or_insert(0) += spans_measured;
+                if want_log {
+                    log.push(format!("op {} span_probe: {} probe call(s); blocks: {}", oi, probes, blocks.iter().map(|b| format!("value {} = words {}..={} ({} words)", hex(&b.1), hex(&b.2), hex(&b.3), hex(&b.4))).collect::<Vec<_>>().join("; ")));
+                }
+                states.insert(state_tuple(type_tag, 8, op.shape, blocks.len() as u64, 0, probes.min(100) as usize, if aborted { 6 } else { 1 }));
+                if inapplicable > 0 {
+                    *counters.entry("span_probe_targets_inapplicable").or_insert(0) += inapplicable as u64;
+                }
+                if aborted || blocks.len() < 2 {
+                    continue;
+                }
+                bump(&mut counters, "span_probe_configs_compared");
+                let mn = blocks.iter().min_by(|a, b| refint::ucmp(&a.4, &b.4)).unwrap();
+                let mx = blocks.iter().max_by(|a, b| refint::ucmp(&a.4, &b.4)).unwrap();
+                if mn.4 != mx.4 {
+                    viol.push(Violation {
+                        class: "fibre_spans_differ",
+                        op: oi,
+                        call: 0,
+                        detail: format!(
+                            "{} on [{}, {}]: value {} is produced exactly by the {} consecutive first words {}..={} but value {} by the {} consecutive words {}..={} (little-endian hex; both ends of each block located by bisection and verified against the neighbouring values, interior sampled) — values do not have the same number of accepted preimages",
+                            ["gen_range", "sample_single", "Uniform::sample"][*via as usize % 3], hex(low), hex(&high_incl), hex(&mn.1), hex(&mn.4), hex(&mn.2), hex(&mn.3), hex(&mx.1), hex(&mx.4), hex(&mx.2), hex(&mx.3)
+                        ),
+                    });
+                }
+            }
             OpKind::Gen => {
                 for (ci, plan) in op.calls.iter().enumerate() {
                     calls_total += 1;
@@ -719,9 +977,14 @@ pub fn valid(spec: &RunSpec, ty: &dyn TyObj) -> bool {
     let w = ty.bytes();
     for op in &spec.ops {
         match &op.kind {
-            OpKind::GenRange { low, high, inclusive } | OpKind::Single { low, high, inclusive, .. } | OpKind::Uniform { low, high, inclusive, .. } | OpKind::FibreWalk { low, high, inclusive, .. } => {
+            OpKind::GenRange { low, high, inclusive } | OpKind::Single { low, high, inclusive, .. } | OpKind::Uniform { low, high, inclusive, .. } | OpKind::FibreWalk { low, high, inclusive, .. } | OpKind::SpanProbe { low, high, inclusive, .. } => {
                 if low.len() != w || high.len() != w {
                     return false;
+                }
+                if let OpKind::SpanProbe { targets, .. } = &op.kind {
+                    if targets.iter().any(|t| t.len() != w) {
+                        return false;
+                    }
                 }
                 if let OpKind::FibreWalk { start, .. } = &op.kind {
                     if start.len() != w {
